@@ -268,3 +268,65 @@ def tx_dumps(out):
 def field(dump, key):
     m = re.search(r"[{,]%s=([^,}\]]*)" % re.escape(key), dump)
     return m.group(1) if m else None
+
+
+# ---------------------------------------------------------------- projections: what each property observes
+
+_EV = re.compile(r"h(\d+)\.(-?\d+)((?:\.[0-9a-fN\-]+)?)((?:\.L)?)")
+
+
+def split_ops(out):
+    body = out.split("||")[0]
+    return body.split("|")
+
+
+def parse_op(s):
+    """'@ev ev@rc:cons:in:out:ntx:ib:ih:ob:oh' -> (events string, [ints])"""
+    if s.startswith("@"):
+        j = s.find("@", 1)
+        evs, status = s[1:j], s[j + 1:]
+    else:
+        evs, status = "", s
+    try:
+        nums = [int(x) for x in status.split(":")]
+    except ValueError:
+        nums = []
+    return evs, nums
+
+
+def ev_skeleton(evs, payload=False):
+    """events without the TRANSACTION_COMPLETE snapshot (and without payloads unless asked)"""
+    res = []
+    for tok in evs.split(" "):
+        if not tok:
+            continue
+        m = _EV.match(tok)
+        if not m:
+            res.append(tok[:8])
+            continue
+        if m.group(1) == "18":
+            res.append("h18.%s" % m.group(2))
+        else:
+            res.append("h%s.%s%s%s" % (m.group(1), m.group(2), m.group(3) if payload else "", m.group(4)))
+    return " ".join(res)
+
+
+def project(out, prop):
+    """the part of an S-connp output line that property `prop` talks about (correspondence compares only this)"""
+    if "||" not in out:
+        return out
+    ops = [parse_op(s) for s in split_ops(out)]
+    fin = final_dump(out)
+    conn = fin.split(";")[0]
+    if prop in ("C09", "C16"):
+        return "|".join("%s@%s" % (ev_skeleton(e), ":".join(map(str, n[:5]))) for e, n in ops) + "||" + conn
+    if prop == "C10":
+        return "|".join(":".join(map(str, [n[0]] + n[4:9])) if len(n) >= 9 else "?" for e, n in ops)
+    if prop == "C05":
+        prog = ";".join("%s/%s" % (field(d, "rp"), field(d, "sp")) for d in fin.split(";")[1:] if d != "N")
+        return "|".join(ev_skeleton(e) for e, n in ops) + "||" + prog
+    if prop == "C06":
+        lens = ";".join("%s/%s/%s/%s" % (field(d, "rml"), field(d, "rel"), field(d, "sml"), field(d, "sel")) for d in fin.split(";")[1:] if d != "N")
+        body = "|".join(" ".join(t for t in ev_skeleton(e, payload=True).split(" ") if t.split(".")[0] in ("h5", "h14", "h19", "h20", "h9", "h17")) for e, n in ops)
+        return body + "||" + lens
+    return out
